@@ -11,7 +11,7 @@ import vlib
 TARGETS = ["Base/Num.vo", "Base/Corr.vo", "C13/Model.vo", "C13/ModelKernels.vo", "C13/Spec.vo", "C13/SpecTest.vo",
            "C13/Corr.vo", "C13/Anchors.vo", "C13/ProofsGlue.vo", "C13/ProofsDrivers.vo", "C13/ProofsTables.vo",
            "C13/ProofsAnchors.vo", "C13/Spec2.vo", "C13/ProofsAnchors2.vo", "C13/Anchors2.vo", "C13/Spec3.vo", "C13/ProofsAnchors3.vo",
-           "C13/Props.vo"]
+           "C13/Spec4.vo", "C13/Model4.vo", "C13/ProofsAnchors4.vo", "C13/Anchors4.vo", "C13/Props.vo"]
 PROPS = ["C13/Props.v"]
 PARTIAL = ("No theorem about the accuracy of the Boost-ported kernels (gamma_incomplete_imp, igamma_temme_large, bessel_ik, "
            "temme_ik, CF1/CF2, digamma/trigamma/polygamma/zeta rational approximations) over all float64 arguments is attempted. "
@@ -43,6 +43,10 @@ PARTIAL = ("No theorem about the accuracy of the Boost-ported kernels (gamma_inc
            "functional equation (Zeta(1-s), s > 1 non-integer, is checked by direct summation in the sweep only). LogErfc(x) = ln 2 for "
            "x <= -6 is an exact float anchor (the bound erfc(6) < 2^-55 is not certified in Coq).")
 BOUNDARIES_EXPECTED = "corpus/C13/boundaries_expected.json"
+try:
+    ROUND5_NEW = set(json.load(open(os.path.join(vlib.ROOT, "corpus/C13/round5_targets.json"))))
+except (OSError, ValueError):
+    ROUND5_NEW = set()
 
 
 def boundary_report(ctx, binary, anchors, okset):
@@ -53,7 +57,7 @@ def boundary_report(ctx, binary, anchors, okset):
         ctx.notes.append("boundary pass failed: " + out[-300:])
         return
     bs = json.load(open(bp))
-    stat = {}
+    stat, examples = {}, {}
     for a in anchors:
         if a["id"] not in okset and not ((a.get("skip") or "").startswith("exact") and not a.get("nonfinite")):
             continue     # certified by Coq-Interval, or an exact outcome anchor that was observed as specified
@@ -62,6 +66,12 @@ def boundary_report(ctx, binary, anchors, okset):
             st["t" if p["t"] else "f"] += 1
             if p["adj"]:
                 st["adj_t" if p["t"] else "adj_f"] += 1
+            ex = examples.setdefault(p["k"], {"t": [], "f": []})["t" if p["t"] else "f"]
+            if p["adj"]:
+                ex.insert(0, a["desc"])
+            elif len(ex) < 2:
+                ex.append(a["desc"])
+            del ex[2:]
     rows, seen = [], set()
     cls_count = {"both_sides_adjacent": 0, "at_boundary_and_other_side": 0, "both_outcomes_not_adjacent": 0, "one_side": 0, "uncovered": 0}
     for b in bs:
@@ -80,7 +90,8 @@ def boundary_report(ctx, binary, anchors, okset):
         else:
             c = "one_side"
         cls_count[c] += 1
-        rows.append({"site": "%s:%d" % (b["file"], b["line"]), "key": b["key"], "class": c, "anchors": st, "kind": b.get("kind", "")})
+        rows.append({"site": "%s:%d" % (b["file"], b["line"]), "key": b["key"], "class": c, "anchors": st, "kind": b.get("kind", ""),
+                     "role": b.get("role", ""), "int": bool(b.get("int")), "covered_by": examples.get(b["key"])})
     exp_path = os.path.join(vlib.ROOT, BOUNDARIES_EXPECTED)
     drift = None
     if os.path.exists(exp_path):
@@ -97,6 +108,14 @@ def boundary_report(ctx, binary, anchors, okset):
                              "sign_parity_integer": {"listed": sum(1 for r in rows if r["kind"]),
                                                      "both_sides": sum(1 for r in rows if r["kind"] and r["class"] not in ("uncovered", "one_side"))},
                              "sign_parity_integer_not_both_sides": [r["kind"] + " " + r["key"] for r in rows if r["kind"] and r["class"] in ("uncovered", "one_side")],
+                             "by_role": {role: {c: sum(1 for r in rows if r["role"] == role and r["class"] == c) for c in cls_count}
+                                         for role in ("select", "convergence")},
+                             "integer_order_comparisons": {"listed": sum(1 for r in rows if r["int"]),
+                                                           "both_sides": sum(1 for r in rows if r["int"] and r["class"] not in ("uncovered", "one_side"))},
+                             "select_not_both_sides": [r["key"] for r in rows if r["role"] == "select" and r["class"] in ("uncovered", "one_side")],
+                             "newly_covered_round5": [{"key": r["key"], "site": r["site"], "class": r["class"], "true_side": (r["covered_by"] or {}).get("t"),
+                                                       "false_side": (r["covered_by"] or {}).get("f")}
+                                                      for r in rows if r["key"] in ROUND5_NEW and r["class"] not in ("uncovered", "one_side")],
                              "drift_vs_expected": drift, "list": rows}
     exp2 = os.path.join(vlib.ROOT, "corpus/C13/parity_exempt.json")
     if os.path.exists(exp2):
@@ -188,7 +207,7 @@ def eval_anchor_shards(paths, timeout=1500):
         if os.path.exists(aux):
             os.remove(aux)
         return {"path": p, "rc": rc, "ok": ok, "fail": bad, "log": out[-1500:] if rc != 0 else ""}
-    with cf.ThreadPoolExecutor(max_workers=vlib.NCPU) as ex:
+    with cf.ThreadPoolExecutor(max_workers=int(os.environ.get("C13_WORKERS", vlib.NCPU))) as ex:
         return list(ex.map(one, paths))
 
 
